@@ -261,7 +261,7 @@ func OracleC10(rc *sim.RunCtx, w *world.World, prior world.DevState, rec *world.
 
 func runC10(rc *sim.RunCtx) {
 	h, err := NewHist(rc, HistOpts{Profiles: []string{"core", "presence", "choice", "core"}, MinTx: 2, MaxTx: 8, Capture: true,
-		DevKinds: []string{"direct", "direct", "direct", "gnmi-proto", "gnmi-json", "gnmi-json_ietf"},
+		DevKinds: []string{"direct", "direct", "direct", "gnmi-proto", "gnmi-json", "gnmi-json_ietf", "netconf", "netconf-running"},
 		Allowed:  map[string]bool{"create": true, "change": true, "grow": true, "shrink": true, "reprio": true, "delete": true, "resubmit": true},
 		Oracles:  map[string]bool{}})
 	if err != nil {
